@@ -404,7 +404,7 @@ prop('C19',
 _ROUND4 = {
     'C02': 'Spaced stream: inputs whose tokens are separated by ignored blanks and newlines; the line, column and pos_in_stream of every LALR error (UnexpectedToken, UnexpectedCharacters, UnexpectedEOF with its $END token) are compared with the coordinates computed from the text.',
     'C08': 'Spaced stream: the error token of every LALR failure over blank- and newline-separated inputs carries the coordinates of its first character in the text (end coordinates one past its last).',
-    'C03': 'Corpus: alternatives of three and more symbols whose names run together when joined by "_" (helper names of the CYK normal form), aliases on such alternatives; replay of fixed finding F30 (a terminal kept by a ! template must still be filtered in its siblings).',
+    'C03': 'Corpus: alternatives of three and more symbols whose names run together when joined by "_" (helper names of the CYK normal form), aliases on such alternatives; replay of fixed finding F31 (template instances shared across filter_out).',
     'C05': 'Lattice-level priority stream: terminals that may contain the ignored blank, dynamic and dynamic_complete; the chosen derivation (with the spans of its tokens) must be among the lattice derivations and of optimal priority; choose() of the Lean Choice model is run on the families of the root.',
     'C06': 'Optional-tail terminals (a terminal with an optional suffix that the next terminal could also match), every token of every derivation under dynamic_complete + explicit ambiguity; meta of ?-inlined rules with filtered brackets.',
     'C07': 'Join-collision shape: terminals whose names or patterns coincide after lark joins anonymous literal names, so that a wrong merge changes which terminal wins.',
